@@ -133,6 +133,62 @@ def small_argument_cases(Bicomplex, rtol=1e-12):
     return cnt, bad
 
 
+def small_domain_cases(Bicomplex, rtol=1e-8):
+    """log-type functions (log, log2, log10, sqrt, real powers) at tiny in-domain arguments (1e-8 .. 1e-20, perturbations of relative
+    size 1e-3 .. 1e-1): each component agrees with the idempotent spec evaluated with numpy's complex functions to `rtol` relative to
+    the largest component of that half (floating point; a regulariser that is not negligible next to the argument shows here)"""
+    bad = []
+    cnt = 0
+    fns = {'log': (lambda z: z.log(), np.log), 'log2': (lambda z: z.log2(), np.log2), 'log10': (lambda z: z.log10(), np.log10),
+           'sqrt': (lambda z: z.sqrt(), np.sqrt), 'z**1.5': (lambda z: z ** 1.5, lambda w: w ** 1.5), 'z**-0.5': (lambda z: z ** -0.5, lambda w: w ** -0.5)}
+    with warnings.catch_warnings():
+        warnings.simplefilter('ignore')
+        for name, (fb, fc) in fns.items():
+            for x in (1e-8, 1e-10, 1e-12, 1e-15, 1e-20):
+                for rel in (1e-3, 1e-1):
+                    h = x * rel
+                    z = Bicomplex(x + 1j * h, h + 0.0j)
+                    try:
+                        out = fb(z)
+                    except Exception as e:
+                        bad.append(dict(function=name, x=x, h=h, raised=repr(e)[:100])); continue
+                    u, v = complex(z.z1 - 1j * z.z2), complex(z.z1 + 1j * z.z2)
+                    fu, fv = complex(fc(u)), complex(fc(v))
+                    s1, s2 = (fu + fv) / 2, (fu - fv) * 0.5j
+                    cnt += 1
+                    got1, got2 = complex(np.ravel(out.z1)[0]), complex(np.ravel(out.z2)[0])
+                    # the difference fu - fv carries the cancellation error eps*|fu|/rel of the reference itself
+                    tol1 = rtol * abs(s1)
+                    tol2 = rtol * abs(s2) + 1e-14 * abs(fu)
+                    if not (abs(got1 - s1) <= tol1 and abs(got2 - s2) <= tol2):
+                        bad.append(dict(function=name, x=x, h=h, got=[got1, got2], spec=[s1, s2],
+                                        relative_error=[abs(got1 - s1) / abs(s1), abs(got2 - s2) / max(abs(s2), 1e-300)]))
+    return cnt, bad
+
+
+def dea3_quiet_cases(dea3):
+    """"raises nothing" whatever warning filters the caller has installed: with warnings promoted to errors, triples of moderate
+    magnitude (up to 1e6) including ties, constants and zeros produce finite results, non-negative estimates and no exception"""
+    import itertools
+    bad = []
+    cnt = 0
+    vals = [0.0, 1.0, -1.0, 1.5, 5.0, 6.0, 7.0, 8.0, -40.0, 1e3, 1e6, 1e-3, 0.5]
+    cands = list(itertools.product(vals, vals, vals))
+    cands += [(np.array([5.0, 7.0, 1.0]), np.array([5.0, 8.0, 1.0]), np.array([6.0, 8.0, 1.0])), (np.array([[1e3, 2.0]]), np.array([[1e3, 2.0]]), np.array([[2e3, 2.0]]))]
+    for e in cands:
+        cnt += 1
+        with warnings.catch_warnings():
+            warnings.simplefilter('error')
+            try:
+                res, err = dea3(*e)
+            except Exception as ex:
+                bad.append(dict(terms=[np.asarray(t).tolist() for t in e], raised_with_warnings_as_errors=repr(ex)[:120]))
+                continue
+        if not (np.all(np.isfinite(res)) and np.all(np.isfinite(err)) and np.all(np.asarray(err) >= 0)):
+            bad.append(dict(terms=[np.asarray(t).tolist() for t in e], got=np.asarray(res).tolist(), abserr=np.asarray(err).tolist()))
+    return cnt, bad
+
+
 def dea3_integer_cases(dea3):
     """integer-typed terms (python ints, lists, integer ndarrays): dea3 returns what it returns for the same numbers as floats"""
     bad = []
@@ -216,6 +272,26 @@ def fd_derivative_grid_cases(fd_derivative):
                 k = int(np.argmax(np.abs(du - exact))) if du.shape == (N,) else 0
                 bad.append(dict(n=n, m=m, grid=gname, index=k, got=str(du[k] if du.shape == (N,) else du.shape), expected=str(exact[k]), tolerance=float(tol),
                                 result_dtype=str(du.dtype)))
+        # memory layout of the inputs: columns of a table, every second slot of a longer buffer (NaN in between), reversed views --
+        # the result is the one obtained for contiguous copies of the same numbers
+        xs = np.sort(rng.uniform(-1, 1, N)); fs = np.sin(2 * xs) + xs ** 2
+        table = np.column_stack([xs, fs])
+        wide_x = np.full(2 * N, np.nan); wide_x[::2] = xs
+        wide_f = np.full(2 * N, np.nan); wide_f[::2] = fs
+        for lname, fv, xv in [('columns of an (N, 2) table', table[:, 1], table[:, 0]), ('every second slot of a buffer', wide_f[::2], wide_x[::2]),
+                              ('only x is a strided view', fs.copy(), table[:, 0]), ('only fx is a strided view', wide_f[::2], xs.copy()),
+                              ('reversed views', fs[::-1], xs[::-1])]:
+            cnt += 1
+            try:
+                with warnings.catch_warnings():
+                    warnings.simplefilter('ignore')
+                    ref = np.asarray(fd_derivative(np.ascontiguousarray(fv), np.ascontiguousarray(xv), n, m))
+                    du = np.asarray(fd_derivative(fv, xv, n, m))
+            except Exception as e:
+                bad.append(dict(n=n, m=m, layout=lname, raised=repr(e)[:100])); continue
+            if du.shape != ref.shape or not np.array_equal(du, ref, equal_nan=True):
+                k = int(np.argmax(~(du == ref))) if du.shape == ref.shape else 0
+                bad.append(dict(n=n, m=m, layout=lname, index=k, strided_inputs_give=str(du[k] if du.shape == ref.shape else du.shape), contiguous_copies_give=str(ref[k])))
     return cnt, bad
 
 
@@ -253,6 +329,112 @@ def honesty_cases(nd):
                             if not abs(v - exact) <= 100 * est + 1e-5 * scale * 10 ** n or (est == 0.0 and abs(v - exact) > 1e-9 * scale * 10 ** n):
                                 worst = dict(x=x, value=float(v), exact=float(exact), error_estimate=est); break
                         out['%s,n=%d,%s,%s' % (name, n, method, oname)] = (worst is None, worst)
+    return out
+
+
+def record_extra_args_cases(nd, klass):
+    """the record when the call carries extra positional / keyword arguments: f_value == f(x, *args, **kwds), the value is the
+    derivative of that member of the family, and the estimate is honest about it"""
+    bad = []
+    cnt = 0
+    x = np.array([0.3, 0.7])
+    with warnings.catch_warnings():
+        warnings.simplefilter('ignore')
+        for method in ('central', 'forward', 'complex'):
+            for how in ('keyword', 'positional', 'both'):
+                cnt += 1
+                a, b = 3.0, 0.5
+                if klass == 'Derivative':
+                    f = lambda t, a=1.0, b=0.0: np.sin(a * t) + b * t
+                    exact = a * np.cos(a * x) + b
+                elif klass == 'Jacobian':
+                    f = lambda t, a=1.0, b=0.0: np.array([np.sin(a * t[0]) + b * t[1], a * t[0] * t[1]])
+                    exact = np.array([[a * np.cos(a * x[0]), b], [a * x[1], a * x[0]]])
+                elif klass == 'Gradient':
+                    f = lambda t, a=1.0, b=0.0: np.sin(a * t[0]) + b * t[1] * t[1]
+                    exact = np.array([a * np.cos(a * x[0]), 2 * b * x[1]])
+                elif klass == 'Hessdiag':
+                    f = lambda t, a=1.0, b=0.0: np.sin(a * t[0]) + b * t[1] * t[1] + t[0] * t[1]
+                    exact = np.array([-a * a * np.sin(a * x[0]), 2 * b])
+                else:
+                    f = lambda t, a=1.0, b=0.0: np.sin(a * t[0]) + b * t[1] * t[1] + a * t[0] * t[1]
+                    exact = np.array([[-a * a * np.sin(a * x[0]), a], [a, 2 * b]])
+                if klass == 'Hessian' and method == 'complex':
+                    continue
+                args, kwds = {'keyword': ((), dict(a=a, b=b)), 'positional': ((a, b), {}), 'both': ((a,), dict(b=b))}[how]
+                try:
+                    v, info = getattr(nd, klass)(f, method=method, full_output=True)(x, *args, **kwds)
+                except Exception as e:
+                    bad.append(dict(cls=klass, method=method, extra=how, raised=repr(e)[:100])); continue
+                fx = f(x, *args, **kwds)
+                if not np.allclose(info.f_value, fx, rtol=1e-13, atol=0):
+                    bad.append(dict(cls=klass, method=method, extra=how, f_value=np.asarray(info.f_value).tolist(), expected=np.asarray(fx).tolist()))
+                elif not np.all(np.abs(v - exact) <= 100 * np.abs(np.reshape(info.error_estimate, np.shape(v))) + 1e-5):
+                    bad.append(dict(cls=klass, method=method, extra=how, value=np.asarray(v).tolist(), exact=exact.tolist(), error_estimate=np.asarray(info.error_estimate).tolist()))
+    return cnt, bad
+
+
+def hessian_default_step_cases(nd):
+    """Hessian / Hessdiag with the step generators they use by default (nothing stubbed), every method: exactly symmetric n x n,
+    quadratic f reproduced to rounding (relative 1e-6 of the largest entry: the default steps are not tuned for exactness), a smooth
+    non-quadratic f within 1e-5, and diag(Hessian) == Hessdiag within the two error estimates + 1e-5; at points where the gradient
+    does not vanish, for n = 1, 2, 3 variables"""
+    bad = []
+    cnt = 0
+    Qs = {1: np.array([[1.5]]), 2: np.array([[2.0, -0.7], [-0.7, 0.5]]), 3: np.array([[2.0, -0.7, 0.3], [-0.7, 0.5, 1.1], [0.3, 1.1, -1.4]])}
+    with warnings.catch_warnings():
+        warnings.simplefilter('ignore')
+        for d, Q in Qs.items():
+            g = np.array([0.8, -1.3, 0.4])[:d]
+            x = np.array([0.7, -0.4, 1.2])[:d]
+            quad = lambda t: 0.3 + np.dot(g, t) + 0.5 * np.dot(t, np.dot(Q, t))
+            w = np.array([0.9, -0.5, 0.3])[:d]
+            smooth = lambda t: np.exp(np.dot(w, t)) + np.dot(t, t)
+            Hs = np.exp(np.dot(w, x)) * np.outer(w, w) + 2 * np.eye(d)
+            for method in ('central', 'central2', 'forward', 'backward', 'complex', 'multicomplex'):
+                for fname, f, want, tol in (('quadratic', quad, Q, 1e-6 * np.max(np.abs(Q))), ('exp(w.x)+x.x', smooth, Hs, 1e-5 * np.max(np.abs(Hs)))):
+                    cnt += 1
+                    try:
+                        H, hi = nd.Hessian(f, method=method, full_output=True)(x)
+                        D, di = nd.Hessdiag(f, method=method, full_output=True)(x)
+                    except Exception as e:
+                        bad.append(dict(method=method, d=d, f=fname, raised=repr(e)[:100])); continue
+                    H = np.atleast_2d(H); D = np.atleast_1d(D)
+                    if H.shape != (d, d) or not np.array_equal(H, H.T):
+                        bad.append(dict(method=method, d=d, f=fname, problem='not an exactly symmetric n x n matrix', got=H.tolist())); continue
+                    if not np.all(np.abs(H - want) <= tol):
+                        bad.append(dict(method=method, d=d, f=fname, what='Hessian with default steps', got=H.tolist(), expected=want.tolist())); continue
+                    if not np.all(np.abs(D - np.diag(want)) <= tol):
+                        bad.append(dict(method=method, d=d, f=fname, what='Hessdiag with default steps', got=D.tolist(), expected=np.diag(want).tolist())); continue
+                    slack = np.abs(np.diag(np.atleast_2d(hi.error_estimate))) + np.abs(np.atleast_1d(di.error_estimate)) + 1e-5 * max(1.0, float(np.max(np.abs(want))))
+                    if not np.all(np.abs(np.diag(H) - D) <= slack):
+                        bad.append(dict(method=method, d=d, f=fname, what='diag(Hessian) vs Hessdiag', hessian_diag=np.diag(H).tolist(), hessdiag=D.tolist()))
+    return cnt, bad
+
+
+def honesty_complex_cases(nd):
+    """C02 honesty clause for complex-valued f with the real-step methods (C01's domain): exp(i w x) for two frequencies -- at the
+    larger one the largest default steps alias the oscillation, so the wrong-but-self-consistent estimates have to be screened
+    out by the outlier rule in the imaginary part as well as in the real part.  Returns {case name: (ok, detail)}."""
+    out = {}
+    with warnings.catch_warnings():
+        warnings.simplefilter('ignore')
+        for w, wname in ((8 * np.pi, '8pi'), (2.0, '2'), (3 * np.pi, '3pi')):
+            for n in (1, 2):
+                for method in ('central', 'forward', 'backward'):
+                    worst = None
+                    for x in (0.0, 0.25, 0.5, 0.3, 1.0 / 16):
+                        f = lambda t, w=w: np.exp(1j * w * t)
+                        try:
+                            v, info = nd.Derivative(f, n=n, method=method, full_output=True)(x)
+                        except Exception as e:
+                            worst = dict(x=x, raised=repr(e)[:80]); break
+                        exact = (1j * w) ** n * f(x)
+                        scale = max(abs(exact), 1.0)
+                        est = float(np.abs(info.error_estimate))
+                        if not abs(v - exact) <= 100 * est + 1e-5 * scale * 10 ** n:
+                            worst = dict(x=x, value=str(complex(v)), exact=str(complex(exact)), error_estimate=est); break
+                    out['exp(i*%s*x),n=%d,%s,default-steps' % (wname, n, method)] = (worst is None, worst)
     return out
 
 
@@ -554,6 +736,49 @@ def taylor_cases(fb):
     return out
 
 
+def taylor_hard_cases(fb):
+    """C17 at the edges of its range: (a) entire non-polynomial functions whose low-order derivatives vanish at z0 (the radius
+    search sees them only through f(z0) and the high-order terms), default options, n <= 13: neither degenerate nor failed and
+    honest; (b) many coefficients (n = 53, 60: the 128-point transform) of a function with a tiny disc of analyticity started
+    from a small radius: honest (in particular finite) whenever the status reports neither degenerate nor failed.
+    Same inequality as taylor_cases.  Returns {case: (ok, detail)}."""
+    import math
+    out = {}
+    cases = []
+    for z0 in (0.0, 0.3):
+        cases.append(('cos((z-z0)^2)', z0, (lambda z0: lambda z: np.cos((z - z0) ** 2))(z0), lambda k: ((-1) ** (k // 4) / math.factorial(k // 2) if k % 4 == 0 else 0.0), (2, 4, 6), {}, True))
+        cases.append(('exp((z-z0)^4)', z0, (lambda z0: lambda z: np.exp((z - z0) ** 4))(z0), lambda k: (1.0 / math.factorial(k // 4) if k % 4 == 0 else 0.0), (2, 4, 6), {}, True))
+        cases.append(('cos((z-z0)^4)', z0, (lambda z0: lambda z: np.cos((z - z0) ** 4))(z0), lambda k: ((-1) ** (k // 8) / math.factorial(k // 4) if k % 8 == 0 else 0.0), (8, 10, 13), {}, True))
+    for z0 in (0.0, 1.0):
+        for r in (1e-4, 1e-3):
+            cases.append(('1/(z0+0.002-z)', z0, (lambda z0: lambda z: 1.0 / (z0 + 0.002 - z))(z0), lambda k: 500.0 ** (k + 1), (53, 60), dict(r=r), False))
+    with warnings.catch_warnings():
+        warnings.simplefilter('ignore')
+        for name, z0, f, c, ns, kw, must_converge in cases:
+            worst = None
+            for n in ns:
+                try:
+                    co, info = fb.taylor(f, z0, n=n, full_output=True, **kw)
+                except Exception as e:
+                    worst = dict(n=n, raised=repr(e)[:100]); break
+                true = np.array([c(k) for k in range(min(len(co), n + 1))])
+                err = np.abs(co[:n + 1] - true)
+                est = np.abs(info.error_estimate)[:n + 1]
+                R = info.final_radius
+                floor = np.finfo(float).eps * np.max(np.abs(f(z0 + R * np.exp(2j * np.pi * np.arange(64) / 64)))) / R ** np.arange(n + 1)
+                honest = bool(np.all(err <= 100 * est + 100 * floor))
+                if len(co) < n + 1 or (must_converge and (info.degenerate or info.failed)) or ((not info.degenerate) and (not info.failed) and not honest):
+                    with np.errstate(all='ignore'):
+                        ratio = np.where(np.isfinite(err), err / (100 * est + 100 * floor), np.inf)
+                    k = int(np.argmax(ratio))
+                    worst = dict(n=n, degenerate=bool(info.degenerate), failed=bool(info.failed), iterations=int(info.iterations), final_radius=float(R), k=k,
+                                 coefficient=str(co[k]), exact=str(true[k]), error_estimate=float(est[k]))
+                    break
+            oname = ','.join('%s=%s' % kv for kv in sorted(kw.items())) or 'default-options'
+            out['%s,z0=%s,%s' % (name, z0, oname)] = (worst is None, worst)
+    return out
+
+
 def dea3_layout_cases(dea3):
     """dea3 on arrays of every memory layout (C, Fortran, transposed / strided views) that mix elements taking the Shanks
     branch with elements taking the guards (constant triples, zeros, equally spaced terms): every element equals its scalar
@@ -654,6 +879,82 @@ def dea_cases(ex):
             tab = np.asarray(d.epstab[:d._n + 1], dtype=float)
             if not np.any(np.abs(tab - L) <= 1e-7 * max(1.0, abs(L))):
                 bad.append(dict(limexp=limexp, transients=k, terms=2 * k + 1, limit=L, table=tab.tolist()))
+    # a sequence much longer than the table (the table is full on every later call): with one transient and limexp = 3, or k transients
+    # and limexp >= 2k+3, Dea keeps returning the limit -- what EpsAlg gives for the last 2k+1 terms (terms far apart: no guard is
+    # involved).  (With limexp == 2k+1 > 3 the column of highest order is rebuilt from a shifted table and the limit is not kept.)
+    for limexp, L, trans in [(3, 2.0, [(1.0, 0.9)]), (3, -3.0, [(2.0, -0.6)]), (3, 0.7, [(-4.0, 0.3)]), (3, 1.0, [(1.0, -1.1)]), (3, 10.0, [(3.0, 0.97)]),
+                             (7, 2.0, [(1.0, 0.9), (-0.7, -0.6)]), (7, -1.0, [(2.0, 0.8), (1.5, 0.35)])]:
+        cnt += 1
+        k = len(trans)
+        d = ex.Dea(limexp=limexp)
+        terms = []
+        for n in range(24):
+            terms.append(L + sum(a * q ** n for a, q in trans))
+            with np.errstate(all='ignore'):
+                res, err = d(terms[-1])
+            if n < max(limexp - 1, 2 * k):
+                continue
+            e = ex.EpsAlg()
+            for t in terms[-(2 * k + 1):]:
+                ref = e(t)
+            if abs(ref - L) > 1e-7 * max(1.0, abs(L)):
+                continue            # the reference itself is no longer determined to this accuracy
+            if not (np.isfinite(res) and abs(res - L) <= 1e-7 * max(1.0, abs(L))):
+                bad.append(dict(limexp=limexp, limit=L, transients=trans, term=n + 1, dea=float(res), epsalg_on_last_terms=float(ref), problem='full table: limit lost'))
+                break
+    return cnt, bad
+
+
+def epsilon_integer_cases(ex):
+    """integer-typed terms (python ints, numpy integer scalars, partial sums of an integer array): EpsAlg and Dea return after
+    every term what they return for the same numbers given as floats"""
+    bad = []
+    cnt = 0
+    seqs = {'-1+2*2^n': [2 ** (n + 1) - 1 for n in range(7)], 'cumsum': list(np.cumsum(np.array([3, -6, 12, -24, 48, -96], dtype=np.int64))),
+            'squares': [n * n for n in range(1, 8)], 'int32': [np.int32(v) for v in (5, 8, 10, 11, 13, 12)], 'mixed': [1, 3, 4.5, 5, 5.25, 6]}
+    for name, seq in seqs.items():
+        for cls, kw in (('EpsAlg', {}), ('Dea', dict(limexp=5)), ('Dea', dict(limexp=3))):
+            cnt += 1
+            a, b = getattr(ex, cls)(**kw), getattr(ex, cls)(**kw)
+            for k, v in enumerate(seq):
+                with np.errstate(all='ignore'), warnings.catch_warnings():
+                    warnings.simplefilter('ignore')
+                    try:
+                        ra, rb = a(v), b(float(v))
+                    except Exception as e:
+                        bad.append(dict(cls=cls, options=kw, sequence=name, term=k, raised=repr(e)[:100])); break
+                ra, rb = np.ravel(np.asarray(ra, dtype=float)), np.ravel(np.asarray(rb, dtype=float))
+                if ra.shape != rb.shape or not np.allclose(ra, rb, rtol=1e-12, atol=0, equal_nan=True):
+                    bad.append(dict(cls=cls, options=kw, sequence=name, terms=[repr(t) for t in seq[:k + 1]], integer_terms_give=ra.tolist(), float_terms_give=rb.tolist()))
+                    break
+    return cnt, bad
+
+
+def limit_kwargs_cases(lm):
+    """extra positional / keyword arguments of the call select the member of a function family: Limit.__call__, Limit.limit and
+    Residue.__call__ evaluate THAT member (keyword values differing from the defaults of f)"""
+    bad = []
+    cnt = 0
+    with warnings.catch_warnings():
+        warnings.simplefilter('ignore')
+        def fam(z, c=1.0, z0=0.0):
+            with np.errstate(all='ignore'):
+                return np.expm1(c * (z - z0)) / (z - z0) + z0        # -> c + z0 at z = z0
+        def pole(z, c=1.0, z0=0.0):
+            return np.exp(c * z) / (z - z0)                            # residue exp(c*z0) at z0
+        for z0 in (0.3, -0.4 + 0.2j):
+            for c in (2.5, -0.75):
+                for how in ('keyword', 'positional'):
+                    a, k = ((), dict(c=c, z0=z0)) if how == 'keyword' else ((c, z0), {})
+                    for nm, call, want in (('Limit.__call__', lambda: lm.Limit(fam)(z0, *a, **k), c + z0), ('Limit.limit', lambda: lm.Limit(fam).limit(z0, *a, **k), c + z0),
+                                           ('Residue.__call__', lambda: lm.Residue(pole)(z0, *a, **k), np.exp(c * z0))):
+                        cnt += 1
+                        try:
+                            v = call()
+                        except Exception as e:
+                            bad.append(dict(via=nm, extra=how, c=c, z0=str(z0), raised=repr(e)[:100])); continue
+                        if np.size(v) != 1 or not abs(np.ravel(v)[0] - want) <= 1e-6 * max(1.0, abs(want)):
+                            bad.append(dict(via=nm, extra_arguments=how, c=c, z0=str(z0), got=str(np.ravel(v)[0]), expected=str(want)))
     return cnt, bad
 
 
@@ -705,4 +1006,6 @@ def limit_cases(lm):
                         bad.append(dict(what='Residue', pole_order=p, order=order, z0=str(z0), raised=repr(e)[:100])); continue
                     if not abs(r - g(z0)) <= 1e-6 * max(1.0, abs(g(z0))):
                         bad.append(dict(what='Residue', pole_order=p, order=order, z0=str(z0), got=str(r), expected=str(g(z0))))
+    c2, b2 = limit_kwargs_cases(lm)
+    cnt, bad = cnt + c2, bad + b2
     return cnt, bad
